@@ -1018,6 +1018,42 @@ def gen_set_case(rng, nops):
     return [1, uni, ops]
 
 
+def gen_algebra_case(rng, machine):
+    """every algorithm (copying and in-place, plus the predicates) on one pair of operands drawn
+    as differently ordered samples of a universe with equal-but-distinct records"""
+    main = rng.choice(["NS", "MX", "PTR", "SRV", "TXT"])
+    n = len(FAMILIES[main][2])
+    locs = [(main, i % n) for i in rng.sample(range(2 * n), min(2 * n, rng.randint(4, 7)))]
+    uni = make_universe(locs)
+    if uni is None:
+        return None
+    nu = len(uni)
+    a = rng.sample(range(nu), rng.randint(2, min(5, nu)))
+    b = rng.sample(range(nu), rng.randint(0, min(3, nu)))
+    if rng.random() < 0.5:
+        a, b = b, a
+    ops = []
+    if machine == 1:
+        ops += [[1, 0, a], [1, 1, b]]
+        for w in (1, 2, 3, 4, 6, 7, 8, 9, 10):
+            ops.append([9, w, 2, 0, 1])
+        for w in range(1, 11):
+            ops += [[7, 2, 0], [8, w, 2, 1]]
+        for w in range(1, 6):
+            ops.append([10, w, 0, 1])
+        return [1, uni, ops]
+    c, t = uni[0][1], uni[0][2]
+    ops += [[1, 0, c, t, 0, rng.choice(TTLS)], [1, 1, c, t, 0, rng.choice(TTLS)]]
+    ops += [[5, 0, i, rng.choice(TTLS + [None])] for i in a] + [[5, 1, i, rng.choice(TTLS + [None])] for i in b]
+    for w in (1, 2, 3, 4, 6, 7, 8, 9, 10):
+        ops.append([13, w, 2, 0, 1])
+    for w in range(1, 11):
+        ops += [[11, 2, 0], [12, w, 2, 1]]
+    for w in range(1, 6):
+        ops.append([14, w, 0, 1])
+    return [2, uni, ops]
+
+
 def gen_rds_case(rng, nops):
     r = rng.random()
     if r < 0.45:
@@ -1278,6 +1314,10 @@ def _cases(ctx):
         c = gen_rds_case(rng, rng.choice([4, 8, 12, 20] if ctx.quick else [4, 8, 12, 16]))
         if c is not None:
             yield "rds", c
+    for i in range(ctx.n(300, 2000)):
+        c = gen_algebra_case(rng, 1 + i % 2)
+        if c is not None:
+            yield "algebra", c
     # ---- record comparisons: all pairs inside each family + cross-family samples
     fams = sorted(FAMILIES)
     for f in fams:
